@@ -282,11 +282,11 @@ impl BitvectorExtended for Bitvector {
             ))
         } else {
             let result = self.clone().into_checked_mul(rhs).unwrap();
-            if result.clone().into_checked_sdiv(self).unwrap() != *rhs {
-                Ok((result, true))
-            } else {
-                Ok((result, false))
-            }
+            // Both factors fit into an `i64`, so the exact product fits into an `i128`.
+            // (Dividing the result by `self` does not detect the overflow of `-1 * MIN`.)
+            let exact_product = self.try_to_i128()? * rhs.try_to_i128()?;
+            let overflow = result.try_to_i128()? != exact_product;
+            Ok((result, overflow))
         }
     }
 
